@@ -6,7 +6,7 @@ import vlib
 from runner import PropBase
 from vlib import Rng
 
-KEYS = ["mz", "st", "ga", "gA", "gr", "iv", "ch", "sp", "ip", "spn", "ipn", "rn", "vn", "cr", "cv", "sz", "fm", "mg"]
+KEYS = ["mz", "st", "ga", "gA", "gr", "iv", "ch", "sp", "ip", "spn", "ipn", "rn", "vn", "cr", "cv", "sz", "fm", "mg", "sa", "ia"]
 UNKNOWN = ["-", "foo", "$eip", "RAX", "Rsp", "x31", "r32", "g_r32", "g8", "pc.", "cpsr", "EIP", "zz"]
 
 
@@ -174,6 +174,44 @@ class C18(PropBase):
                 for n in probes:
                     cases.append("%s %s S:%s %d %d" % (variant, n, key, val(), flagset[k % len(flagset)] if isinstance(k, int) else own))
             dist["validity_family_sets"] = dist.get("validity_family_sets", 0) + len(seen)
+            # ---- fill mode: EVERY 32-bit word of the base context is the fill word, so every field a method could consult
+            #      (cpsr, eflags, context_flags, fpscr, ...; no field is named) takes every single-bit pattern, all-ones and
+            #      all-ones-but-one-bit, crossed with odd / even / boundary values written through every spelling of the sp and
+            #      ip registers (the dedicated accessors are compared with the by-name reads on each), and sampled for the rest
+            M32 = 0xffffffff
+            fills = [0, M32] + [1 << b for b in range(32)] + [0x55555555, 0xaaaaaaaa, 0x21, 0x20000001, M32 ^ 0x20, M32 ^ 1]
+            if tier != "quick":
+                fills += [M32 ^ (1 << b) for b in range(32)] + [rng.below(1 << 32) for _ in range(48)]
+            fills = list(dict.fromkeys(fills))
+            canon = lambda x: al.get(x, x)
+            special = [n for n in names if canon(n) in (canon(t["sp_name"]), canon(t["ip_name"]))]
+
+            def fvals(fw):
+                basev = fw if w == 32 else (fw << 32) | fw
+                pool = [1, 2, 0x8001, 0x8000, ones, ones - 1, rnd() | 1, rnd() & ~1, (1 << (w - 1)) | 1, 1 << (w - 1)]
+                return [x for x in pool if x != basev]
+            nf = 0
+            for fi, fw in enumerate(fills):
+                pool = fvals(fw)
+                for n in special:
+                    vs = pool if tier != "quick" else [pool[(fi + q) % len(pool)] for q in (0, 1, 4, 5)]
+                    for x in dict.fromkeys(vs):
+                        cases.append("%s %s A %d - %d" % (variant, n, x, fw))
+                        nf += 1
+                # one sp/ip spelling under a Some(..) validity and with explicit context_flags on top of the fill
+                n = special[fi % len(special)]
+                cases.append("%s %s S:%s %d %d %d" % (variant, n, n, pool[fi % len(pool)], flagset[fi % len(flagset)], fw))
+                # the other names: a rotating sample per fill (all of them in the thorough tier)
+                rest = [n for n in names if n not in special]
+                for q in range(len(rest) if tier != "quick" else 3):
+                    n = rest[(fi * 3 + q) % len(rest)]
+                    cases.append("%s %s A %d - %d" % (variant, n, pool[(fi + q) % len(pool)], fw))
+                    nf += 1
+                nf += 1
+            # an unknown name on filled contexts
+            for fw in fills[:6]:
+                cases.append("%s %s A %d - %d" % (variant, UNKNOWN[1], 1, fw))
+            dist["fill_cases"] = dist.get("fill_cases", 0) + nf + 6
             dist["by_type"][variant] = len(cases) - n0
         # de-duplicate S:a,a (a HashSet cannot hold a name twice)
         out = []
@@ -256,6 +294,11 @@ class C18(PropBase):
                     who, value, name, cn, tag, d[tag])
             if not hit and d[tag] != "B":
                 return "%s: the dedicated %s accessor changed to %s although %r is not the %s register" % (who, tag, d[tag], name, tag)
+        # --- the dedicated accessors against the by-name reads themselves (whatever the other fields hold)
+        if d["sa"] != "1":
+            return "%s: get_stack_pointer() differs from get_register_always(%r) (stack_pointer_register_name) on this context" % (who, d["spn"])
+        if d["ia"] != "1":
+            return "%s: get_instruction_pointer() differs from get_register_always(%r) (instruction_pointer_register_name) on this context" % (who, d["ipn"])
         # --- enumerations
         if lst(d["rn"]) != RG or lst(d["cr"]) != RG:
             return "%s: registers() lists %s / %s, REGISTERS is %s" % (variant, d["rn"], d["cr"], d["RG"])
